@@ -6,6 +6,9 @@ O3 addresses through the pure-Python stdlib ipaddress (family and integer preser
 O5 typed lists (order, length, None -> empty)
 O6 nested and grouped records through pack_obj / unpack_obj over the tree-level msgpack model
 O7 flavour bits of path / command and the digest triple
+O8 sequences: every history of K records over a universe of record kinds (types sharing a name, types whose identifiers coincide,
+   nested / grouped holders, a record of every field type) written to ONE stream reads back as the same sequence (the history is
+   the symbolic dimension; the concrete part of a path runs the real writer/reader outside the tracer)
 """
 import io
 import struct
@@ -39,6 +42,7 @@ BOUNDS = {
     "slots": "n <= 4 declared fields, carrier values all ints / None, list length <= 2",
     "addresses": "all 2^32 IPv4 and all 2^128 IPv6 addresses",
     "nested": "carriers in msgpack's native range [-2^63, 2^64) (outside it the varint branch decides), 4 shapes",
+    "sequences": "K = 3 (quick) / 4 (thorough) records per stream over 11 record kinds, every history",
 }
 STUBS = [
     "tree-level msgpack (vf/models/msgtree.py): native types pass through, everything else goes through default / ext_hook; validated against the real msgpack every run",
@@ -335,6 +339,63 @@ def flavour():
     return check
 
 
+_SEQ = None
+
+
+def seq_universe():
+    """record kinds for O8: C03's universe (incl. the pair whose identifiers coincide - solver witness or static pair) plus typed rows"""
+    global _SEQ
+    if _SEQ is None:
+        from harness import C03
+
+        rows = replay_records()
+        _SEQ = list(C03.universe()) + [lambda r=r: r for r in (rows[1], rows[4], rows[5])]
+    return _SEQ
+
+
+def stream_problem(records):
+    """in-memory round trip through the real stream writer / reader -> None or the first difference"""
+    from flow.record.stream import RecordStreamReader, RecordStreamWriter
+
+    want = [deep(r) for r in records]
+    buf = io.BytesIO()
+    w = RecordStreamWriter(buf)
+    for r in records:
+        w.write(r)
+    w.flush()
+    data = buf.getvalue()
+    w.fp = None
+    try:
+        got = [deep(r) for r in RecordStreamReader(io.BytesIO(data))]
+    except Exception as e:  # noqa: BLE001
+        return f"reading back raised {type(e).__name__}: {e}"
+    return None if got == want else _first_diff(got, want)
+
+
+def sequences(k: int, first: int):
+    from crosshair.tracers import NoTracing
+
+    n = len(seq_universe())
+
+    def check(c1: int, c2: int, c3: int) -> bool:
+        """
+        post: _
+        """
+        codes = [c1, c2, c3][: k - 1]
+        if not all(0 <= c < n for c in codes):
+            return True
+        kinds = [first]
+        for c in codes:
+            for j in range(n):
+                if c == j:
+                    kinds.append(j)
+        with NoTracing():
+            U = seq_universe()
+            return stream_problem([U[i]() for i in kinds]) is None
+
+    return check
+
+
 def model_validation():
     from vf.models import msgtree
 
@@ -360,6 +421,9 @@ def obligations(tier, seed):
     obs.append(ob("O5-typedlist/record", "xh", "typed_list", {"elem": "record"}, timeout=to, group="O5-typedlist", bounds="length <= 3, carrier elements"))
     for shape in range(4):
         obs.append(ob(f"O6-nested/shape{shape}", "xh", "nested", {"shape": shape}, timeout=to * 2, group="O6-nested", bounds="carriers in [-2^63, 2^64)"))
+    k = 3 if tier == "quick" else 4
+    for first in range(len(seq_universe())):
+        obs.append(ob(f"O8-sequences/K{k}/first{first}", "xh", "sequences", {"k": k, "first": first}, timeout=to * 2, group="O8-sequences", bounds=f"{k} records x {len(seq_universe())} kinds, one stream"))
     obs.append(ob("O7-flavour", "xh", "flavour", {}, timeout=to * 2, group="O7-flavour", bounds=f"{len(FLAVOUR_TABLE)} path/command table entries x 8 digest member subsets (contents beyond the table: outside)"))
     return obs
 
@@ -528,6 +592,14 @@ def replay(res):
         addrs = [ipa.IPv6Address(v % 2**128), ipa.IPv6Address(1), ipa.IPv6Address(2**32 - 1), ipa.IPv6Address(2**32), ipa.IPv4Address(v % 2**32), ipa.IPv4Address(0), ipa.IPv4Address(2**32 - 1)]
         recs = [D(str(a), [str(a)]) for a in addrs]
         what_in = "addresses"
+    elif "O8-sequences" in gid:
+        v = cex_args(res, ["c1", "c2", "c3"])
+        U = seq_universe()
+        kinds = [res["args"]["first"]] + [c for c in [v.get("c1"), v.get("c2"), v.get("c3")][: res["args"]["k"] - 1] if isinstance(c, int) and 0 <= c < len(U)]
+        probs = real_roundtrip([U[i]() for i in kinds])
+        if probs:
+            return {"reproduced": True, "key": f"C01/sequence/{kinds}", "what": f"sequence of record kinds {kinds} through {probs[0][0]}: {probs[0][1]}"[:700], "input": {"kinds": kinds}}
+        return {"reproduced": False, "what": f"sequence {kinds} reads back exactly through the path-based writer/reader"}
     if recs is not None:
         probs = real_roundtrip(recs)
         if probs:
